@@ -706,10 +706,13 @@ def u6(rep, F, flt=None):
         return r
     spec = json.load(open(SPEC))["functions"]
     cur = extract_all(F)
-    rx = FILTERS.get(flt)
+    rx = FILTERS.get(flt) if isinstance(flt, str) else None
     if flt == "fields":
         rx = re.compile(r"^(<fields::|fields::|headers::)")
-    if flt:
+    if isinstance(flt, tuple):
+        rx = flt[1]
+        r["floor"] = flt[2]
+    elif flt:
         r["floor"] = {"amount": 25, "date": 20, "headers": 4, "parser": 10, "blocks": 2, "tokeniser": 2,
                       "predicates": 12}.get(flt, 1)
     for path in sorted(set(spec) | set(cur)):
@@ -779,10 +782,13 @@ def u7(rep, F, flt=None):
         return r
     spec = json.load(open(STORES))["functions"]
     cur = extract_stores(F)
-    rx = FILTERS.get(flt)
+    rx = FILTERS.get(flt) if isinstance(flt, str) else None
     if flt == "fields":
         rx = re.compile(r"^(<fields::|fields::)")
-    if flt:
+    if isinstance(flt, tuple):
+        rx = flt[1]
+        r["floor"] = flt[2]
+    elif flt:
         r["floor"] = {"fields": 100, "headers": 3, "parser": 5, "date": 15, "amount": 20}.get(flt, 1)
     for path in sorted(set(spec) | set(cur)):
         if rx is not None and not rx.search(path):
@@ -794,8 +800,14 @@ def u7(rep, F, flt=None):
         if sig != spec[path]:
             a = [x for x in sig if x not in spec[path]]
             o = [x for x in spec[path] if x not in sig]
-            rep.add(Finding("U7", path, "store-changed",
-                            "%s now delivers a different value than the reference: current `%s` vs reference `%s`"
-                            % (path, (a[0].split(" => ", 1)[-1] if a else "-")[:300], (o[0].split(" => ", 1)[-1] if o else "-")[:300]),
-                            b["file"], b["line"]))
+            va = (a[0].split(" => ", 1)[-1] if a else "-")
+            vo = (o[0].split(" => ", 1)[-1] if o else "-")
+            if va == vo and a and o:
+                msg = ("%s now delivers `%s` under a different condition than the reference: current when `%s`, "
+                       "reference when `%s`" % (path, va[:160], a[0].split(" => ", 1)[0][:400],
+                                                o[0].split(" => ", 1)[0][:400]))
+            else:
+                msg = ("%s now delivers a different value than the reference: current `%s` vs reference `%s`"
+                       % (path, va[:300], vo[:300]))
+            rep.add(Finding("U7", path, "store-changed", msg, b["file"], b["line"]))
     return r
